@@ -13,34 +13,40 @@ namespace ElfiVerif.Compile
 compiled and loaded net at every requested USER node is its denotation on the source graph
 (operation applied to the parents' values, positional by position and named by name, `batch_size` /
 `meta` / `random_state` exactly for the nodes that declare them, `observed =` tuple of the parents'
-twins for nodes that use observed data) … -/
+twins for nodes that use observed data) …  (`hsupnd`: supplied values form a dictionary — one value
+per name; `hobs`: observed data is given for nodes of the model.  Without them the statement is
+false: machine-checked counter-examples in Proofs/Compile.lean.) -/
 theorem compiled_meaning_user (env : Env) (s : Source) (hwf : SourceWF env s) (outputs : List Nat)
     (supplied : List (Nat × Nat)) (hsup : ∀ p ∈ supplied, IsUser s p.1 ∨ IsTwin env s p.1)
+    (hsupnd : (supplied.map (·.1)).Nodup) (hobs : ∀ p ∈ s.observed, IsUser s p.1)
     (c : CNet) (hc : compile env s outputs = .ok c) (o : Nat) (ho : o ∈ outputs) (hu : IsUser s o)
     (fuelE fuelD : Nat) (hE : 2 * s.nodes.length + 3 ≤ fuelE) (hD : 2 * s.nodes.length + 2 ≤ fuelD) :
     evalNode (load env s supplied [] c) fuelE o = denote env s supplied fuelD o ∧
       (denote env s supplied fuelD o).isSome = true :=
-  compiled_meaning_user' env s hwf outputs supplied hsup c hc o ho hu fuelE fuelD hE hD
+  compiled_meaning_user_corrected env s hwf outputs supplied hsup hsupnd hobs c hc o ho hu fuelE fuelD hE hD
 
 /-- … and at every requested observed TWIN it is the observed denotation (the given observation, or
 the operation applied to the parents' twins). -/
 theorem compiled_meaning_twin (env : Env) (s : Source) (hwf : SourceWF env s) (outputs : List Nat)
     (supplied : List (Nat × Nat)) (hsup : ∀ p ∈ supplied, IsUser s p.1 ∨ IsTwin env s p.1)
+    (hsupnd : (supplied.map (·.1)).Nodup) (hobs : ∀ p ∈ s.observed, IsUser s p.1)
     (c : CNet) (hc : compile env s outputs = .ok c) (x : SNode) (hx : x ∈ s.nodes) (ht : hasTwin x = true)
     (ho : env.twin x.name ∈ outputs)
     (fuelE fuelD : Nat) (hE : 2 * s.nodes.length + 3 ≤ fuelE) (hD : 2 * s.nodes.length + 2 ≤ fuelD) :
     evalNode (load env s supplied [] c) fuelE (env.twin x.name) = denoteObs env s supplied fuelD x.name ∧
       (denoteObs env s supplied fuelD x.name).isSome = true :=
-  compiled_meaning_twin' env s hwf outputs supplied hsup c hc x hx ht ho fuelE fuelD hE hD
+  compiled_meaning_twin_corrected env s hwf outputs supplied hsup hsupnd hobs c hc x hx ht ho fuelE fuelD hE hD
 
 /-- **Executing along any valid order computes the dataflow meaning**: if the executor's order lists
 nodes so that every node comes after the non-supplied parents it needs (any topological order of the
-needed nodes does), the returned outputs are the meanings `evalNode`. -/
-theorem execute_eq_eval (l : CNet) (hn : (l.nodes.map (·.name)).Nodup) (order : List Nat)
+needed nodes does), the returned outputs are the meanings `evalNode`.  (`hop`: a node that carries a
+value has no operation left — true of every loaded net.) -/
+theorem execute_eq_eval (l : CNet) (hn : (l.nodes.map (·.name)).Nodup)
+    (hop : ∀ x ∈ l.nodes, x.output.isSome = true → x.op = none) (order : List Nat)
     (res : List (Nat × Term)) (h : execute l order = some res) (fuel : Nat) (hf : l.nodes.length < fuel)
     (hacy : ∃ r : Nat → Nat, ∀ e ∈ l.edges, r e.src < r e.dst) :
     ∀ p ∈ res, evalNode l fuel p.1 = some p.2 :=
-  execute_eq_eval' l hn order res h fuel hf hacy
+  execute_eq_eval_corrected l hn hop order res h fuel hf hacy
 
 /-- **Only needed operations run, each once**: the set the executor runs has no duplicates, consists
 of nodes that still have an operation (a supplied or stored node never runs) and from which a
